@@ -400,7 +400,15 @@ theorem invK_flush (g : Cfg) (s : S) (ks : List KAns) (hi : InvK g s) (hh : s.hu
   rename_i hc
   have hc : s.closed = false := by simpa using hc
   split
-  · exact hi
+  · rename_i he
+    -- by the belief clause nothing is armed for an empty queue: the resetRead is a no-op
+    have hwl : s.wl = [] := by cases hs : s.wl <;> simp_all
+    have hwf : s.isWAdded = false := by
+      cases hw : s.isWAdded
+      · rfl
+      · have := (hi.wadd hc hh).mp hw; simp [hwl, hcn] at this
+    have e : cResetRead g s = s := by simp [cResetRead, hwf]
+    rw [e]; exact hi
   · rename_i hne
     have hw : s.isWAdded = true := (hi.wadd hc hh).mpr (Or.inl (isEmpty_ne_true hne))
     have hce : s.connEv = false := by
@@ -414,7 +422,7 @@ theorem calm_flush (g : Cfg) (s : S) (ks : List KAns) : Calm s (flush g s ks) :=
   split
   · exact Calm.refl s
   split
-  · exact Calm.refl s
+  · exact calm_cResetRead g s
   · exact calm_flushLoop g _ s ks
 
 /-! ### registration, events, close -/
